@@ -1,10 +1,8 @@
 (* C20 - every generated eon key is handed to publication, even several per interval.
    This file only states the theorems; proofs are in Proofs/EonPK.v.
 
-   State on the pinned tree: the loop of queryAndHandleNewEonPubKeys returns after the first
-   key of a batch (D13).  [legacy_run] is the model of the tree as it is; the full statement is
-   refuted on it, and proved for histories in which at most one key generation finishes per
-   polling interval and one mechanism is configured. *)
+   [run] is the model of keyper/eonpkhandler.go as it is now (after commit dbdf6df in /repo,
+   which repaired D13); [legacy_run] is the loop of the pinned tree, kept for the refutation. *)
 From Coq Require Import String List NArith ZArith Bool Permutation Lia.
 From Verif Require Import Lib.Bytes Model.EonPK Proofs.EonPK.
 Import ListNotations.
@@ -12,7 +10,140 @@ Open Scope string_scope.
 Open Scope list_scope.
 Open Scope Z_scope.
 
-(* The property fails on the tree as it is: a well-formed history (two eons of a set the
+(* For every history - keyper sets and eons becoming known, successful key generations being
+   recorded (for known eons of sets the keyper is in, as finalizeDKG does), polling ticks at any
+   points, ticks whose query fails - with any number of key generations between two ticks,
+   every order in which a tick's query delivers the pending rows ([wf_from] only asks that a
+   tick enumerates exactly the pending rows), broadcast, callback or both, and mechanisms that
+   accept what they are handed:
+   - no tick returns an error;
+   - what each configured mechanism was handed and accepted, together with what is still
+     pending, is as a multiset exactly [expected]: one entry per recorded key generation of a
+     set the keyper belongs to, carrying the key, its eon's activation block, the keyper-set
+     index and the eon number - each exactly once, with the right four fields;
+   - after a final tick nothing is pending, so handed = generated;
+   - every broadcast message carries the configured instance id. *)
+Theorem C20_each_exactly_once : forall h ops,
+  wf_from h empty_db ops -> accepting ops ->
+  let d := fst (run h empty_db ops) in
+  let outs := snd (run h empty_db ops) in
+  Forall (fun e => e = ENone) (tick_errors outs) /\
+  (h_bcast h = true -> Permutation (handed_to MBroadcast outs ++ pending_pks h d) (expected h ops)) /\
+  (h_cb h = true -> Permutation (handed_to MCallback outs ++ pending_pks h d) (expected h ops)) /\
+  (forall ops' enum answers, ops = ops' ++ [OpTick enum answers] -> pending_pks h d = []) /\
+  (forall i pk a, In (CBroadcast i pk, a) (calls_of outs) -> i = h_instance h).
+Proof. exact each_exactly_once. Qed.
+Print Assumptions C20_each_exactly_once.
+
+Definition ex_h : hcfg := mkH (hx "aa") 7 true true.
+Definition ex_ops : list op :=
+  [OpCfg 0 [hx "bb"; hx "aa"]; OpCfg 1 [hx "cc"]; OpCfg 2 [hx "aa"];
+   OpEon 1 100 0; OpEon 2 150 1; OpEon 3 200 0; OpEon 4 300 2;
+   OpGen (hx "10") 1; OpGen (hx "11") 3; OpGen (hx "12") 4;
+   OpTickFails;
+   OpTick [mkOut (hx "12") 4; mkOut (hx "10") 1; mkOut (hx "11") 3] [true];
+   OpGen (hx "13") 1; OpTick [mkOut (hx "13") 1] []].
+
+(* the hypotheses hold on a history with three sets (the keyper in two), four eons, three key
+   generations before one tick delivered in another order, and the handed lists are not empty *)
+Example C20_each_exactly_once_nonvacuous :
+  wf_from ex_h empty_db ex_ops /\ accepting ex_ops /\
+  handed_to MBroadcast (snd (run ex_h empty_db ex_ops))
+  = [mkPK (hx "12") 300 2 4; mkPK (hx "10") 100 0 1; mkPK (hx "11") 200 0 3; mkPK (hx "13") 100 0 1] /\
+  handed_to MCallback (snd (run ex_h empty_db ex_ops)) = handed_to MBroadcast (snd (run ex_h empty_db ex_ops)) /\
+  expected ex_h ex_ops
+  = [mkPK (hx "10") 100 0 1; mkPK (hx "11") 200 0 3; mkPK (hx "12") 300 2 4; mkPK (hx "13") 100 0 1].
+Proof.
+  assert (Permutation [mkOut (hx "12") 4; mkOut (hx "10") 1; mkOut (hx "11") 3]
+                      [mkOut (hx "10") 1; mkOut (hx "11") 3; mkOut (hx "12") 4]) as P.
+  { apply perm_trans with [mkOut (hx "10") 1; mkOut (hx "12") 4; mkOut (hx "11") 3].
+    - apply perm_swap.
+    - apply perm_skip. apply perm_swap. }
+  split; [cbn; repeat split; try (apply good_rowb_sound; reflexivity); try exact P; apply Permutation_refl|].
+  split; [intros enum answers Hin; simpl in Hin;
+          repeat (destruct Hin as [Hin|Hin]; [try discriminate; inversion Hin; reflexivity|]); contradiction|].
+  repeat split; reflexivity.
+Qed.
+
+(* Nothing else is ever handed over.  For EVERY history whose ticks enumerate the pending rows
+   - no assumption on what was recorded (keys of eons of foreign sets, of unknown eons, negative
+   numbers, refused inserts), on the answers of the mechanisms or on the mode: every call made
+   to a mechanism, accepted or refused, carries a recorded key generation of a set the keyper
+   belongs to, with that eon's activation block, keyper-set index and eon number. *)
+Theorem C20_nothing_else_is_handed : forall h ops c a,
+  ticks_enumerate empty_db ops ->
+  In (c, a) (calls_of (snd (run h empty_db ops))) ->
+  In (call_pk c) (expected h ops).
+Proof. exact nothing_else_is_handed. Qed.
+Print Assumptions C20_nothing_else_is_handed.
+
+(* a history in which a key of an eon of a set the keyper is not in got into the table: the
+   member key polled before it is handed over, the foreign one is not (the tick reports it) *)
+Definition ex_foreign_ops : list op :=
+  [OpCfg 0 [hx "bb"; hx "aa"]; OpCfg 1 [hx "cc"]; OpEon 1 100 0; OpEon 2 150 1;
+   OpGen (hx "10") 1; OpGen (hx "66") 2;
+   OpTick [mkOut (hx "10") 1; mkOut (hx "66") 2] []].
+
+Example C20_nothing_else_is_handed_nonvacuous :
+  ticks_enumerate empty_db ex_foreign_ops /\
+  snd (run ex_h empty_db ex_foreign_ops)
+  = [OIns true; OIns true; OIns true; OIns true; OIns true; OIns true;
+     OTick [(CBroadcast 7 (mkPK (hx "10") 100 0 1), true); (CCallback (mkPK (hx "10") 100 0 1), true)]
+           ENotMember] /\
+  expected ex_h ex_foreign_ops = [mkPK (hx "10") 100 0 1].
+Proof.
+  split; [cbn; repeat split; apply Permutation_refl|]. split; reflexivity.
+Qed.
+
+(* PARTIAL with respect to the property: the property exempts only the keys a mechanism
+   refuses; here a refusal also costs the keys polled behind the refused one.  What is proved
+   is that this is never silent and exactly how far it goes.  One tick in any state that
+   well-formed histories produce, any row order, any answers of the mechanisms: the pending
+   rows are deleted, and either every configured mechanism accepted every key and no error is
+   returned, or the keys polled before the refused key [r] went through, [r] was handed and
+   refused, the error of that mechanism is returned (the caller logs it), and the keys [rest]
+   polled behind [r] were handed to nothing - they are lost, because the query had already
+   deleted them.  (Not deleting before the hand-over would need the poll and the hand-over in
+   one transaction; that is a redesign, not a repair of D13.) *)
+Theorem C20_failure_is_not_silent_partial : forall h d enum answers,
+  wf_db h d -> Permutation enum (outgoing d) ->
+  exists calls e,
+    step h d (OpTick enum answers) = (mkDb [] (eons d) (cfgs d), OTick calls e) /\
+    let pks := stamp_all h (eons d) (cfgs d) enum in
+    Permutation pks (pending_pks h d) /\
+    ((e = ENone /\ calls = flat_map (calls_ok h) pks) \/
+     (exists done r rest pre c,
+         pks = done ++ r :: rest /\
+         calls = flat_map (calls_ok h) done ++ pre ++ [(c, false)] /\
+         call_pk c = r /\
+         Forall (fun ca => call_pk (fst ca) = r /\ snd ca = true) pre /\
+         e = err_of_call c /\ e <> ENone /\
+         (forall x, In x rest -> ~ In x (map (fun ca => call_pk (fst ca)) calls)))).
+Proof. exact failure_is_not_silent. Qed.
+Print Assumptions C20_failure_is_not_silent_partial.
+
+Definition ex_db : db :=
+  mkDb [mkOut (hx "10") 1; mkOut (hx "11") 3; mkOut (hx "12") 4]
+       [mkEon 1 100 0; mkEon 3 200 0; mkEon 4 300 2]
+       [mkCfg 0 [hx "bb"; hx "aa"]; mkCfg 2 [hx "aa"]].
+
+(* a state with three pending keys; the callback refuses the second key: the first went to
+   both mechanisms, the second was broadcast and then refused by the callback, the third was
+   handed to nothing and is gone *)
+Example C20_failure_is_not_silent_partial_nonvacuous :
+  wf_db ex_h ex_db /\
+  step ex_h ex_db (OpTick (outgoing ex_db) [true; true; true; false])
+  = (mkDb [] (eons ex_db) (cfgs ex_db),
+     OTick [(CBroadcast 7 (mkPK (hx "10") 100 0 1), true); (CCallback (mkPK (hx "10") 100 0 1), true);
+            (CBroadcast 7 (mkPK (hx "11") 200 0 3), true); (CCallback (mkPK (hx "11") 200 0 3), false)]
+           ECallback).
+Proof.
+  split; [|reflexivity]. split.
+  - repeat constructor; apply good_rowb_sound; reflexivity.
+  - simpl. repeat constructor; simpl; intuition discriminate.
+Qed.
+
+(* The property failed on the pinned tree (D13): a well-formed history (two eons of a set the
    keyper is in, both key generations recorded before one tick, broadcasting, a mechanism that
    accepts everything) after whose final tick no error was returned and nothing is pending,
    but the multiset handed to the mechanism is not the multiset of generated keys. *)
@@ -28,45 +159,9 @@ Theorem C20_each_exactly_once_refuted :
 Proof. exact legacy_each_exactly_once_refuted. Qed.
 Print Assumptions C20_each_exactly_once_refuted.
 
-(* What holds on the tree as it is - PARTIAL: only for histories in which every tick polls at
-   most one pending key ([small_ticks]) and only one of broadcast / callback is configured.
-   Missing with respect to the property: any number of key generations within one polling
-   interval (refuted above), and the callback when broadcasting is enabled as well.
-   For such histories, every sequence of operations, every row order and an accepting
-   mechanism: no tick returns an error; what the mechanism was handed and accepted, together
-   with what is still pending, is as a multiset exactly the successful key generations of sets
-   the keyper belongs to, each with its eon's activation block, keyper-set index and eon
-   number; after a final tick nothing is pending. *)
-Theorem C20_each_exactly_once_single_partial : forall h ops,
-  wf_from h empty_db ops -> accepting ops -> small_ticks ops -> h_bcast h && h_cb h = false ->
-  let d := fst (legacy_run h empty_db ops) in
-  let outs := snd (legacy_run h empty_db ops) in
-  Forall (fun e => e = ENone) (tick_errors outs) /\
-  (h_bcast h = true -> Permutation (handed_to MBroadcast outs ++ pending_pks h d) (expected h ops)) /\
-  (h_cb h = true -> Permutation (handed_to MCallback outs ++ pending_pks h d) (expected h ops)) /\
-  (forall ops' enum answers, ops = ops' ++ [OpTick enum answers] -> pending_pks h d = []).
-Proof. exact legacy_each_exactly_once_single. Qed.
-Print Assumptions C20_each_exactly_once_single_partial.
-
-(* the hypotheses are satisfiable on a history with two sets (the keyper in one of them), two
-   eons, one key per tick, and the conclusion is not empty *)
-Definition ex_h : hcfg := mkH (hx "aa") 7 false true.
-Definition ex_ops : list op :=
-  [OpCfg 0 [hx "bb"; hx "aa"]; OpCfg 1 [hx "cc"]; OpEon 1 100 0; OpEon 2 150 1; OpEon 3 200 0;
-   OpGen (hx "10") 1; OpTick [mkOut (hx "10") 1] [true];
-   OpGen (hx "11") 3; OpTickFails; OpTick [mkOut (hx "11") 3] []].
-
-Example C20_each_exactly_once_single_partial_nonvacuous :
-  wf_from ex_h empty_db ex_ops /\ accepting ex_ops /\ small_ticks ex_ops /\
-  h_bcast ex_h && h_cb ex_h = false /\
-  handed_to MCallback (snd (legacy_run ex_h empty_db ex_ops))
-  = [mkPK (hx "10") 100 0 1; mkPK (hx "11") 200 0 3] /\
-  expected ex_h ex_ops = [mkPK (hx "10") 100 0 1; mkPK (hx "11") 200 0 3].
-Proof.
-  split; [cbn; repeat split; try apply Permutation_refl; apply good_rowb_sound; reflexivity|].
-  split; [intros enum answers Hin; simpl in Hin;
-          repeat (destruct Hin as [Hin|Hin]; [try discriminate; inversion Hin; reflexivity|]); contradiction|].
-  split; [intros enum answers Hin; simpl in Hin;
-          repeat (destruct Hin as [Hin|Hin]; [try discriminate; inversion Hin; simpl; lia|]); contradiction|].
-  repeat split; reflexivity.
-Qed.
+(* the same history on the repaired loop hands both keys *)
+Example C20_each_exactly_once_refuted_repaired :
+  handed_to MBroadcast (snd (legacy_run d13_h empty_db d13_ops)) = [mkPK (hx "10") 100 0 1] /\
+  handed_to MBroadcast (snd (run d13_h empty_db d13_ops)) = expected d13_h d13_ops /\
+  expected d13_h d13_ops = [mkPK (hx "10") 100 0 1; mkPK (hx "11") 200 0 2].
+Proof. repeat split; reflexivity. Qed.
